@@ -159,7 +159,69 @@ def snapshot(hr):
     return out
 
 
+def override_twice_case(item):
+    """all -> w1..wk -> x -> gen, where the user edits the generated file `gen` by hand, rebuilds, and edits it again: in the
+    invocation that follows, x (and everything else) is executed at most once however many dependents ask for it, and the
+    invocation after that has nothing to do - as in the serial build."""
+    import os
+    import time as _t
+    from .. import scen
+    _, seed, j, _sh, _dl, _k = item
+    k = 2 + seed % 3
+    edits = 2 + (seed // 3) % 2
+    tr = scen.TRACE_HDR + 'echo "S $1 $$ $PPID" >&9\n'
+    files = {'gen.do': tr + 'echo generated > "$3"\necho "E $1 $$ 0" >&9\n',
+             'x.do': tr + 'redo-ifchange gen\ncat gen > "$3"\necho "E $1 $$ 0" >&9\n',
+             'all.do': tr + 'redo-ifchange %s\necho "E $1 $$ 0" >&9\n' % ' '.join('w%d' % i for i in range(k))}
+    for i in range(k):
+        files['w%d.do' % i] = tr + 'redo-ifchange x\ncat x > "$3"\necho "E $1 $$ 0" >&9\n'
+    pj = scen.Project(files, 'c07o')
+    anoms = []
+    obs = dict(override_edit_rounds=1, commands=0, hand_edits_of_a_generated_file=0)
+    try:
+        def cmd(label, expect_none=False):
+            open(pj.trace, 'w').close()
+            r, _ = pj.run(['redo-ifchange', 'all'], slots=(j if j > 1 else None))
+            obs['commands'] += 1
+            if r.status != 'exit' or r.panicked() or r.rc != 0:
+                return 'bad'
+            ex = [l.split(' ')[1] for l in pj.trace_text().split('\n') if l.startswith('S ')]
+            multi = sorted(n for n in set(ex) if ex.count(n) > 1)
+            if multi:
+                anoms.append(dict(key='multi:after-hand-edits-of-a-generated-dependency', what='%s: executed more than once in one invocation: %s (all: %s)' % (label, multi, ex)))
+            elif expect_none and ex:
+                anoms.append(dict(key='not-settled:after-hand-edits-of-a-generated-dependency', what='%s: nothing changed since the last invocation, yet %s ran' % (label, ex)))
+            return ex
+        if cmd('first build') == 'bad':
+            return dict(verdict='inconclusive', why='first build failed', sample=dict(item=list(item)))
+        for e in range(edits):
+            _t.sleep(0.02)
+            common.write_file(os.path.join(pj.top, 'gen'), 'edited by hand %d %s\n' % (e, 'x' * (e + 1)))
+            obs['hand_edits_of_a_generated_file'] += 1
+            if cmd('invocation after hand edit %d' % (e + 1)) == 'bad':
+                return dict(verdict='inconclusive', why='build after edit failed', sample=dict(item=list(item)))
+            if anoms:
+                break
+            if cmd('second invocation after hand edit %d' % (e + 1), expect_none=True) == 'bad':
+                return dict(verdict='inconclusive', why='repeat failed', sample=dict(item=list(item)))
+            if anoms:
+                break
+        xf = (common.read_file(os.path.join(pj.top, 'w0')) or b'').decode()
+        if not anoms and not xf.startswith('edited by hand %d' % (edits - 1)):
+            anoms.append(dict(key='stale:after-hand-edits-of-a-generated-dependency', what='w0 holds %r' % xf[:40]))
+    finally:
+        pj.close()
+    res = dict(verdict='violated' if anoms else 'held', nontrivial=obs['hand_edits_of_a_generated_file'] >= 2, shape=common.shash(['override2', k, edits, j]),
+               sample=dict(kind='override2', dependents=k, edits=edits, j=j), obs=obs, sets=dict(schedules=['override2:j%d' % j]))
+    if anoms:
+        res['violations'] = anoms[:2]
+        res['replay'] = dict(kind='twin', item=list(item))
+    return res
+
+
 def case(item):
+    if item[0] == 'override2':
+        return override_twice_case(item)
     kind, seed, j, shuffle, delays, keep = item
     rnd = random.Random(repr((kind, seed)))
     if kind == 'sharing':
@@ -341,7 +403,9 @@ RULE = ('twin replay: the same generated program and the same serial pre-history
         'equal (zero / non-zero; the pairs seen are listed); every target file byte-equal; on success the set of executed targets is equal and the normalised database is equal (Files by '
         'name: generated/override flags, failed, checksum, stamp minus mtime/inode, changed run id mapped to this-run/older (the checked mark is a within-run memo no later run can observe and is left out); Deps edge '
         'set with modes) and the recorded stamp of every target executed in the run matches its file on disk. Non-trivial: scheduled run executed >=3 scripts at -j>1. Distinct: '
-        'graph shape x schedule parameters x number of scripts.')
+        'graph shape x schedule parameters x number of scripts. '
+        'Hand-edit layer: all -> w1..wk -> x -> gen with the generated file gen edited by hand 2-3 times and a rebuild after each edit (-j1/-j3): in every invocation each '
+        'script runs at most once, and the invocation after it runs nothing.')
 ASSUME = ['single invocation per project at a time', 'failing builds without --keep-going: only exit status and the at-most-once rule are compared (which siblings ran before the failure is schedule-dependent)',
           'log files and absolute run-id numbers are excluded from the comparison']
 
@@ -358,6 +422,7 @@ def main(tier):
     for i in range(n):
         kind = rnd.choice(['sharing', 'sharing', 'sharing', 'random', 'random', 'chain', 'fan'])
         items.append((kind, rnd.randrange(10 ** 9), rnd.choice([2, 3, 4, 8, 16]), rnd.random() < 0.4, rnd.choice(dl), rnd.random() < 0.2))
+    items = [('override2', sd, jj, False, None, False) for sd in range(6 if quick else 24) for jj in (1, 3)] + items
     for r in common.pmap(case, items, procs=8, deadline=t0 + budget):
         col.add(r)
     rc = col.finish()
